@@ -35,6 +35,9 @@ def get_prop(pid):
     if pid == "C17":
         import p_done
         return p_done.DoneProp(pid)
+    if pid == "C13":
+        import p_place
+        return p_place.PlaceProp()
     raise SystemExit(f"unknown property {pid}")
 
 
